@@ -277,7 +277,7 @@ func drawC13(t *rapid.T) C13Case {
 func TestC13(t *testing.T) {
 	rec := obs.New("C13")
 	defer rec.Flush(true)
-	rec.SetExtra("rule", "rapid histories on one authorizer: 2-6 rounds of (add facts / rules / checks / policies, then Authorize and/or a query panel, then Reset); the content of a round is the previous round with one request fact changed or dropped (and sometimes a check or policy dropped), or unrelated content. Oracle: the outcome class and the panel answers of every round equal those of a fresh authorizer for the same token given only that round's content. Non-trivial = a history with a round whose result would differ if the previous round's content were still present (decided by running a fresh authorizer on the union); distinct by (token, history).")
+	rec.SetExtra("rule", "rapid histories on one authorizer: 2-6 rounds of (add facts / rules / checks / policies, then Authorize and/or a query panel, then Reset); the content of a round is the previous round with one request fact changed or dropped (and sometimes a check or policy dropped), or unrelated content. A third of the rounds deliver their content through LoadPolicies of a snapshot taken from a throw-away authorizer instead of Add* calls; one history in forty starts with a round that is cut short by a 15 ms limit (4-way cross product over 16-22 facts), followed by Reset and a wait for the abandoned evaluation to end. Oracle: the independently decoded unevaluated snapshot (SerializePolicies), the outcome class and the panel answers of every round equal those of a fresh authorizer for the same token given only that round's content. Non-trivial = a history with a round whose result would differ if the previous round's content were still present (decided by running a fresh authorizer on the union); distinct by (token, history).")
 	rec.SetExtra("assumptions", []string{"comparison is between two executions of the library; correctness of each verdict is C04's subject"})
 	harness.RunWith(t, harness.Spec[C13Case]{ID: "C13", Draw: drawC13, Check: checkC13}, rec)
 }
